@@ -53,7 +53,7 @@ Fixpoint upd {A} (l : list A) (i : nat) (v : A) : list A :=
 Definition updz {A} (l : list A) (i : Z) (v : A) : list A := upd l (Z.to_nat i) v.
 
 (* ------------------------------------------------------------------ keyify / edges *)
-Definition edge := (Z * Z)%type.
+Notation edge := (Z * Z)%type (only parsing).
 Definition keyify2 (a b : Z) : edge := if a <=? b then (a, b) else (b, a).
 Definition keyE (e : edge) : edge := keyify2 (fst e) (snd e).
 Definition edge_eqb (e f : edge) : bool := (fst e =? fst f) && (snd e =? snd f).
